@@ -205,6 +205,10 @@ def run_group(repo, outdir, spec, thorough):
         res['status'] = 'undecided'
         res['reason'] = 'cbmc did not finish in %d s' % tmo
         return fin()
+    if isinstance(rc, int) and rc < 0:
+        res['status'] = 'undecided'
+        res['reason'] = 'cbmc was killed by signal %d (SIGKILL = out of memory) after %.0f s' % (-rc, dt)
+        return fin()
     try:
         data = json.load(open(outjson))
     except Exception as e:
